@@ -210,15 +210,14 @@ public:
 			return;
 		}
 		time_t timeout;
-		int toffset;
 		std::string sid(data_in_.begin(),data_in_.end());
-		if(!sessions_->load(sid,timeout,data_out_) || (toffset=(timeout)) < 0) {
+		if(!sessions_->load(sid,timeout,data_out_) || timeout < 0) {
 			hout_.opcode=opcodes::no_data;
 			return;
 		}
 		hout_.opcode=opcodes::session_load_data;
 		hout_.size=data_out_.size();
-		hout_.operations.session_data.timeout=toffset;
+		hout_.operations.session_data.timeout=timeout;
 	}
 	void remove()
 	{
